@@ -419,7 +419,9 @@ pub trait Nullable: Default + Into<Option<<Self as Nullable>::Wrapped>> /*R:D1 +
 
     #[doc(hidden)]
     fn as_mut(&mut self) -> (r: Option<&mut Self::Wrapped>)
-        /*+*/ensures match r { Some(x) => old(self).nv() == Some(*x) && final(self).nv() == Some(*final(x)), None => old(self).nv() is None && final(self).nv() is None }/*-*/;
+        // (a value that `new` would refuse - zero for NotZero - written through the reference turns the cell into the null element)
+        /*+*/ensures match r { Some(x) => old(self).nv() == Some(*x) && final(self).nv() == (if Self::storable(*final(x)) { Some(*final(x)) } else { None }),
+                               None => old(self).nv() is None && final(self).nv() is None }/*-*/;
 
     #[doc(hidden)]
     fn is_null(&self) -> (r: bool)
